@@ -256,6 +256,74 @@ def step (op obs : String) : String :=
           s!"PROPFAIL op={o} {why}" ++ (if divS.isEmpty then "" else s!" ;DIVERGE {divS}")
         | _ => if divS.isEmpty then "OK" else s!"DIVERGE {divS}"
 
+/-! ### aggregate cases:  a src=… path=… op=<agg:F:SB|aggd:F|aggv:F|twice:F:SB> n=<raw leaves> lf=<leaf>…  TAB obs;…
+    leaf = <relative path>,<L>,<start>:<len>,<flags>,<byte off>:<hex window>.
+    ONE conversion (`tovalue` with one options value) rendered all these raw leaves; the model
+    renders the tree (`renderTree`, = every leaf on its own by Props.C05.render_tree_pointwise)
+    and the property is evaluated on every leaf's observation with that leaf's own bits. -/
+
+def parseLeaf (tok : String) : Option Case := do
+  let fs := tok.splitOn ","
+  guard (fs.length ≥ 5)
+  match fs.reverse with
+  | w :: fl :: r :: l :: _ =>
+    let L ← l.toNat?
+    let (start, len) ← match r.splitOn ":" with
+      | [a, b] => do pure (← a.toNat?, ← b.toNat?)
+      | _ => none
+    let (woff, wb) ← match w.splitOn ":" with
+      | [a, b] => do pure (← a.toNat?, ← bytesOfHex b)
+      | _ => none
+    pure { L, start, len, isRoot := fl.contains 'R', top := false, synth := fl.contains 'S',
+           raw := fl.contains 'W', ownCoord := fl.contains 'F', woff, wbytes := wb, ops := [] }
+  | _ => none
+
+def parseAggOp (t : String) : Option (String × Nat) :=
+  match t.splitOn ":" with
+  | ["agg", f, sb] => sb.toNat?.map fun sb => (f, sb)
+  | ["twice", f, sb] => sb.toNat?.map fun sb => (f, sb)
+  | ["aggd", f] => some (f, 10)
+  | ["aggv", f] => some (f, 10)
+  | _ => none
+
+def stepAgg (op obs : String) : String :=
+  let ws := words op
+  match kv ws "op" >>= parseAggOp with
+  | none => "BADOP aggregate op"
+  | some (f, sb) =>
+    let toks := ws.filterMap fun w => if w.startsWith "lf=" then some ((w.drop 3).toString) else none
+    match toks.mapM parseLeaf with
+    | none => "BADOP leaf"
+    | some cs =>
+      match cs.mapM Case.dv with
+      | none => "BADOP leaf window"
+      | some dvs =>
+        let obss := if obs == "none" then [] else obs.splitOn ";"
+        let model := ((renderTree f sb (VTree.ofLeaves dvs)).leaves).map (showRes showRendered)
+        if obss.length != cs.length then
+          s!"DIVERGE model={cs.length} rendered leaves, implementation: {(obs.take 60)}"
+        else
+          let rs : List (Nat × String × String × Except String Unit) :=
+            (cs.zip (dvs.zip (obss.zip model))).mapIdx fun i (c, v, ob, m) =>
+            let es := if c.isRoot && !c.ownCoord then 0 else v.start
+            let inRange := es + c.len ≤ v.root.length
+            let p : Except String Unit :=
+              if c.synth || !inRange then (if ob.startsWith "err:" then .ok () else .error "no bits but a rendering")
+              else checkRender f sb (valueBits v.root es c.len) ob
+            (i, ob, m, p)
+          let pf := rs.find? fun (_, _, _, p) => match p with | .error _ => true | .ok _ => false
+          let dv := rs.find? fun (_, ob, m, _) => m != ob
+          let divS := match dv with
+            | some (i, _, m, _) => s!"leaf={i} model={(m.take 200)}"
+            | none => ""
+          match pf with
+          | some (i, _, _, .error why) =>
+            s!"PROPFAIL leaf={i} of {cs.length} rendered by one conversion: {why}" ++ (if divS.isEmpty then "" else s!" ;DIVERGE {divS}")
+          | _ => if divS.isEmpty then "OK" else s!"DIVERGE {divS}"
+
+def stepAll (op obs : String) : String :=
+  if op.startsWith "a " then stepAgg op obs else step op obs
+
 end DrvC05
 
-def main : IO Unit := run DrvC05.step
+def main : IO Unit := run DrvC05.stepAll
